@@ -33,7 +33,7 @@ def classes(a, spec, res):
 
 
 def subchecks(tier):
-    prof = common.full_profile(max_nodes=4)
+    prof = common.full_profile("C01", max_nodes=4)
     base = system_subcheck("lattice", prof, lambda spec: [Conservation()], nontrivial, classes=classes,
                             n={"quick": 7200, "thorough": 40000},
                             rule="full lattice, conservation monitor after every event")
